@@ -15,6 +15,7 @@ import (
 	"github.com/functionx/fx-core/v8/contract"
 	fxtypes "github.com/functionx/fx-core/v8/types"
 	crosschaintypes "github.com/functionx/fx-core/v8/x/crosschain/types"
+	erc20types "github.com/functionx/fx-core/v8/x/erc20/types"
 	stakingtypes "github.com/functionx/fx-core/v8/x/staking/types"
 
 	"verif/harness/ev"
@@ -50,9 +51,10 @@ type c09Frame struct {
 }
 
 type c09Case struct {
-	Root      c09Frame `json:"root"`
-	GasPoints []int    `json:"gas_points_permille"` // of the gas used with ample gas; plus absolute specials below
-	Absolute  []uint64 `json:"gas_points_absolute"`
+	Root        c09Frame `json:"root"`
+	DisablePair bool     `json:"disable_pair"`        // governance disables the bridged token's conversion after the set-up: refunds panic part-way
+	GasPoints   []int    `json:"gas_points_permille"` // of the gas used with ample gas; plus absolute specials below
+	Absolute    []uint64 `json:"gas_points_absolute"`
 }
 
 var c09Methods = []string{
@@ -78,7 +80,7 @@ func genC09Frame(t *rapid.T, depth, runner int) c09Frame {
 		switch nd.Kind {
 		case "pre":
 			nd.Method = rapid.SampledFrom(c09Methods).Draw(t, "method")
-			nd.Variant = rapid.SampledFrom([]int{0, 0, 0, 0, 1, 2}).Draw(t, "variant") // 1: too large amount (fails), 2: malformed argument (fails)
+			nd.Variant = rapid.SampledFrom([]int{0, 0, 0, 0, 1, 2, 3}).Draw(t, "variant") // 1: too large amount (fails), 2: malformed argument (fails), 3: executeClaim of the parked failure result
 			nd.CallKind = rapid.SampledFrom([]int{0, 0, 0, 0, 0, 1, 2, 3}).Draw(t, "callkind")
 		case "sub":
 			sub := genC09Frame(t, depth+1, (runner+1+rapid.IntRange(0, 1).Draw(t, "subrunner"))%3)
@@ -92,6 +94,23 @@ func genC09Frame(t *rapid.T, depth, runner int) c09Frame {
 func genC09(t *rapid.T) c09Case {
 	c := c09Case{Root: genC09Frame(t, 0, 0)}
 	c.Root.Epilogue = rapid.SampledFrom([]int{0, 0, 0, 1}).Draw(t, "rootepi")
+	c.DisablePair = rapid.SampledFrom([]bool{false, false, false, false, true}).Draw(t, "disablePair")
+	if c.DisablePair {
+		// the refund inside executeClaim(parked failure result) now panics part-way: put one such call into the
+		// root frame or into its first sub-frame, caught or not
+		nd := c09Node{Kind: "pre", Method: "crosschain.executeClaim", Variant: 3, Amt: 1, Catch: rapid.Bool().Draw(t, "pcatch")}
+		fr := &c.Root
+		if rapid.Bool().Draw(t, "pdeep") {
+			for i := range c.Root.Ops {
+				if c.Root.Ops[i].Sub != nil {
+					fr = c.Root.Ops[i].Sub
+					break
+				}
+			}
+		}
+		at := rapid.IntRange(0, len(fr.Ops)).Draw(t, "pat")
+		fr.Ops = append(fr.Ops[:at], append([]c09Node{nd}, fr.Ops[at:]...)...)
+	}
 	np := 8
 	if thorough() {
 		np = 30
@@ -108,6 +127,7 @@ type c09Env struct {
 	runners [3]common.Address
 	poolIDs [3]uint64
 	claims  [3]uint64
+	results [3]uint64 // parked failure results of an outgoing bridge call of each runner
 }
 
 // c09Setup prepares, on a branch of the base state, three interpreter contracts with FX, bridged
@@ -150,6 +170,25 @@ func c09Setup(f *sim.Fixture, ctx sdk.Context) (*c09Env, *Failure) {
 			return nil, failf("harness", "observe: %v", err)
 		}
 		e.claims[i] = n
+		// an outgoing bridge call of this runner whose failure the external chain has reported (parked)
+		before := map[uint64]bool{}
+		k.IterateOutgoingBridgeCalls(ctx, func(oc *crosschaintypes.OutgoingBridgeCall) bool { before[oc.Nonce] = true; return false })
+		bc, _ := crosschaintypes.GetABI().Pack("bridgeCall", "eth", r, []common.Address{usdt.ERC20}, []*big.Int{big.NewInt(700)}, f.Users[2].Hex(), []byte{9}, big.NewInt(0), []byte{})
+		if res, outs := f.RunScript(ctx, u, r, evmprog.Script{Calls: []evmprog.Call{{Target: sim.CrosschainAddr, Data: bc}}}, nil, 5_000_000); !res.Success() {
+			return nil, failf("harness", "runner bridge call failed: %v %v", res.Err, outs)
+		}
+		var callNonce uint64
+		k.IterateOutgoingBridgeCalls(ctx, func(oc *crosschaintypes.OutgoingBridgeCall) bool {
+			if !before[oc.Nonce] {
+				callNonce = oc.Nonce
+			}
+			return false
+		})
+		rn, err := f.Observe(ctx, "eth", &crosschaintypes.MsgBridgeCallResultClaim{Nonce: callNonce, TxOrigin: sim.ExtAddrN("eth", "c09relayer", i), Success: false, Cause: ""}, 9200+uint64(i))
+		if err != nil {
+			return nil, failf("harness", "observe result: %v", err)
+		}
+		e.results[i] = rn
 	}
 	return e, nil
 }
@@ -197,6 +236,9 @@ func (e *c09Env) callData(nd c09Node, self int) (common.Address, []byte, string)
 		args = []interface{}{"eth", new(big.Int).SetUint64(e.poolIDs[self]), usdt.ERC20, amt}
 	case "crosschain.executeClaim":
 		args = []interface{}{"eth", new(big.Int).SetUint64(e.claims[self])}
+		if nd.Variant == 3 {
+			args = []interface{}{"eth", new(big.Int).SetUint64(e.results[self])}
+		}
 	}
 	if nd.Variant == 2 {
 		switch v := args[0].(type) {
@@ -282,8 +324,18 @@ func runC09(c c09Case, rec *ev.Recorder) *Failure {
 	if fl != nil {
 		return fl
 	}
+	if c.DisablePair {
+		if r := f.RunMsg(ctx, &erc20types.MsgToggleTokenConversion{Authority: sim.GovAddr.String(), Token: f.Token("USDT").Base}); !r.OK() {
+			return failf("harness", "toggle: %v", r.Err)
+		}
+	}
 	u := f.Users[1]
 	s := e.script(c.Root)
+	if len(s.Encode()) > evmprog.MaxScript {
+		// the interpreter copies its script to memory below its output buffer: a larger script would overlap it
+		rec.Case("", false, "oversize-script-skipped")
+		return nil
+	}
 	root := e.runners[c.Root.Runner%3]
 
 	// the state a failed transaction must leave: the same sender's reverted no-op transaction
@@ -291,11 +343,15 @@ func runC09(c c09Case, rec *ev.Recorder) *Failure {
 	f.RunScript(failCtx, u, root, evmprog.Script{Epilogue: evmprog.EpiRevert}, nil, 3_000_000)
 	failDump := f.DumpStores(failCtx)
 
+	panicked := 0
 	check := func(gas uint64, label string) (*Failure, sim.EthTxResult, []evmprog.Outcome) {
 		runCtx, _ := ctx.CacheContext()
 		r, outs := f.RunScript(runCtx, u, root, s, nil, gas)
 		if r.Panic != "" {
-			return failf("C09/panic/"+panicSite(r.Panic), "gas %d: %s\n%s", gas, trimStack(r.Panic), s.String()), r, outs
+			// a native action that panics aborts the whole transaction (baseapp recovers it and discards the
+			// message's writes): nothing to compare, and not this property's subject
+			panicked++
+			return nil, r, outs
 		}
 		if r.Err != nil {
 			// rejected before execution (e.g. intrinsic gas): nothing may change at all
@@ -388,6 +444,12 @@ func runC09(c c09Case, rec *ev.Recorder) *Failure {
 	rec.Label("gas-points", len(c.GasPoints)+len(c.Absolute))
 	rec.Label("gas-points-failing", cut)
 	labels := []string{fmt.Sprintf("root-success:%v", r0.Success())}
+	if panicked > 0 {
+		labels = append(labels, "transaction-aborted-by-panic")
+	}
+	if c.DisablePair {
+		labels = append(labels, "pair-disabled")
+	}
 	if dropped {
 		labels = append(labels, "precompile-success-in-dropped-frame")
 	}
